@@ -19,7 +19,7 @@ PROP = dict(
     harnesses=[
         H(ST, "c44", "c44_corr", "add_correction = exact integer arithmetic and does not panic when the corrected time is representable (|correction| < 2^32 ns)"),
         H(ST, "c44", "c44_to_ntp", "convert_to_ntp: epoch shift mod 2^32, fraction at three anchor points, no panic"),
-        H(ST, "c44", "c44_accept", "answer template (Sync + response TLV, 66 bytes) through CsptpMessage::deserialize: accepted iff well-formed, classified as response, every field the collection loop uses equals the bytes at its wire offset", timeout=900),
+        H(ST, "c44", "c44_accept", "answer template (Sync + response TLV, 66 bytes) through CsptpMessage::deserialize: accepted iff well-formed, classified as response, every field the collection loop uses equals the bytes at its wire offset (652 s)", tier="thorough", timeout=900, timeout_thorough=1800),
         H(ST, "c44", "c44_corr_40", "add_correction for |correction| < 2^40 ns (18 min)", tier="thorough", timeout_thorough=1800),
         H(ST, "c44", "c44_corr_kf_seconds_out_of_range", "FINDING (expected to fail until fixed): corrected seconds outside [0, 2^48) panic in add_correction"),
     ],
